@@ -71,17 +71,18 @@ struct StreamFilterAdapter<'a> {
     ctx: &'a Context,
 }
 //@ END
-/// what handle_write must do with a replacement value: small values (or no key-value separation) stay inline and the blob writer is
-/// untouched; values at or above the threshold are appended to the compaction's blob writer under the entry's own key and seqno,
-/// and the entry becomes an indirection to exactly that blob
+/// what handle_write must do with a replacement value so that it reads back as that value: either it stays inline (type Value, the
+/// same bytes, blob writer untouched) or - only with key-value separation - it is appended to the compaction's blob writer under the
+/// entry's own key and seqno and the entry becomes an indirection to exactly that blob.  Which of the two happens at which size is
+/// tuning (the separation threshold), not part of property C17, and is deliberately left open.
 spec fn replaced(blob_opts: Option<&KvSeparationOptions>, w0: Option<BlobFileWriter>, w1: Option<BlobFileWriter>, key: InternalKey, nv: UserValue, out: (ValueType, UserValue)) -> bool {
-    if blob_opts is None || (nv@.len() as u32) < blob_opts->Some_0.separation_threshold {
-        out.0 == ValueType::Value && out.1 == nv && w1 == w0
-    } else {
+    (out.0 == ValueType::Value && out.1 == nv && w1 == w0)
+    || ({
+        &&& blob_opts is Some
         &&& out.0 == ValueType::Indirection
         &&& w1 is Some && w1->Some_0.log == (if w0 is Some { w0->Some_0.log } else { Seq::empty() }).push((key.user_key@, key.seqno, nv@))
         &&& exists|vh: ValueHandle| out.1@ == #[trigger] ind(vh, nv@.len() as u32)
-    }
+    })
 }
 impl<'a> StreamFilterAdapter<'a> {
 //@ FROM src/compaction/filter.rs :: impl < 'a , 'b : 'a > StreamFilterAdapter < 'a , 'b > :: fn handle_write :: OBL C17.3
